@@ -118,6 +118,60 @@ func readVia(api *vedirectapi.RegisterApi, it poolItem, o outcome) (out string, 
 	}
 }
 
+// lineTrouble: one register read whose answer does not come alone - two late answers for other registers (or an intact
+// frame of another type) are queued in front of it, or the first try is lost to text-protocol output. The reader must report
+// exactly what it reports for the plain answer (value, or the device's refusal, still matchable and named).
+type trouble struct {
+	name string
+	set  func(d *DevPort, addr uint16, ans DevAnswer, rng *Rng)
+}
+
+var troubles = []trouble{
+	{"two-late-answers-in-front", func(d *DevPort, addr uint16, ans DevAnswer, rng *Rng) {
+		us, _ := staleUnits(addr, rng)
+		raw := append([]byte(nil), us[rng.Intn(24)]...)
+		raw = append(raw, us[rng.Intn(24)]...)
+		d.RawRegs[addr] = append(raw, simGet(addr, ans.Flag, ans.Payload)...)
+	}},
+	{"intact-frame-of-another-type-in-front", func(d *DevPort, addr uint16, ans DevAnswer, rng *Rng) {
+		us, _ := staleUnits(addr, rng)
+		raw := append([]byte(nil), us[24+rng.Intn(len(us)-24)]...)
+		d.RawRegs[addr] = append(raw, simGet(addr, ans.Flag, ans.Payload)...)
+	}},
+	{"first-try-lost-to-text-output", func(d *DevPort, addr uint16, ans DevAnswer, rng *Rng) {
+		d.Seq[addr] = [][]byte{[]byte("\r\nPID\t0xA053\r\nV\t12800\r\nChecksum\t:")}
+	}},
+	{"first-tries-unanswered", func(d *DevPort, addr uint16, ans DevAnswer, rng *Rng) {
+		d.Seq[addr] = [][]byte{nil, nil, []byte(":7")}[:1+rng.Intn(3)]
+	}},
+}
+
+func readTroubled(it poolItem, o outcome, t trouble, rng *Rng) (string, *DevPort) {
+	dev := NewDevPort(0xA231)
+	dev.RawRegs = map[uint16][]byte{}
+	addr := it.reg().Address()
+	dev.Regs[addr] = *o.ans
+	t.set(dev, addr, *o.ans, rng)
+	out, _ := readOneDev(it, o, dev)
+	return out, dev
+}
+
+func lineTrouble(s *Sink, rng *Rng, it poolItem, idx int, outs []outcome) {
+	for _, o := range outs {
+		if o.ans == nil {
+			continue
+		}
+		for _, t := range troubles {
+			out, _ := readTroubled(it, o, t, rng)
+			op := fmt.Sprintf("%s %d %s mut:%s", opOfKind[it.kind], idx, o.tok, t.name)
+			s.Line(fmt.Sprintf("kind%d-line-trouble", it.kind), op, out)
+			if v := oracleC09(it, it.reg(), o, out); v != "" {
+				s.Violate(op, out, v+" ("+t.name+")")
+			}
+		}
+	}
+}
+
 var opOfKind = map[int]string{1: "RN", 2: "RT", 3: "RE", 4: "RF"}
 
 // suiteC06api: C06 at the level of the register API - every reader of every register definition against a device that is
@@ -278,6 +332,14 @@ func suiteC09(rng *Rng, thorough bool, s *Sink) {
 				s.Violate(op, out, v)
 			}
 		}
+		// the answer does not come alone
+		{
+			sample := []outcome{errOutcomes[1], errOutcomes[2], errOutcomes[3]}
+			if len(outs) > 8 {
+				sample = append(sample, outs[5+rng.Intn(len(outs)-5)], outs[5+rng.Intn(len(outs)-5)])
+			}
+			lineTrouble(s, rng, it, idx, sample)
+		}
 		// the same register read again through the same RegisterApi after the device's content changed (and after it
 		// refused): the reader reports what the device holds now
 		for k := 0; k < 4 && len(outs) > 6; k++ {
@@ -432,7 +494,8 @@ func oracleC09(it poolItem, reg veregister.Register, o outcome, out string) stri
 	case 3:
 		m := it.e.Factory().IntToStringMap()
 		raw := leU(p)
-		if nm, ok := m[int(raw)]; ok && raw <= math.MaxInt64 {
+		// the raw value itself must be a key (a raw value too wide for the platform's int is no key of any table)
+		if nm, ok := m[int(raw)]; ok && raw <= math.MaxInt32 {
 			want := fmt.Sprintf("ok:%d:%s", raw, hexS(nm))
 			if out != want {
 				return fmt.Sprintf("enum register %s raw %d: want %s, got %s", name, raw, want, out)
@@ -613,10 +676,41 @@ func suiteC10(rng *Rng, thorough bool, s *Sink) {
 			if k%4 == 0 {
 				scens = append(scens, scen{hs: []string{"1010", "0111", "1101"}[rng.Intn(3)], cancel: rng.Intn(total + 1), how: "callback", fail: k, failTok: "err:other"})
 			}
+			// the context ends while the failing register is being read (a poll with a timeout against a device that refuses or
+			// has died): the run still ends with that register's error
+			scens = append(scens, scen{hs: "1111", cancel: k + 1, how: "write", fail: k, failTok: []string{"err:unknown-id", "err:not-supported", "err:parameter-error", "err:other"}[k%4], expire: k%2 == 1})
 		}
 		_ = all
 		for _, sc := range scens {
 			runStream(s, pl.spec, pl.rl, regs, sc.hs, sc.cancel, sc.how, sc.fail, sc.failTok, sc.flag, sc.warm, sc.expire)
+		}
+		// the same runs on a line where late answers for other registers (with and without a refusal flag) and intact frames
+		// of other types sit in front of some of the answers: every register is still delivered, once, in order
+		for ti := 0; ti < 3; ti++ {
+			ti := ti
+			streamHookName = fmt.Sprintf("a-late-answer-in-front-of-two-of-the-answers-%d", ti)
+			streamDevHook = func(d *DevPort) {
+				// a device answers every command once: the late frame is in front of the first answer only, and the answers to
+				// the retries it causes stay behind as late answers for the registers read next (never more than two)
+				var as []int
+				for a, ans := range d.Regs {
+					if ans.Flag == 0 {
+						as = append(as, int(a))
+					}
+				}
+				sort.Ints(as)
+				if len(as) == 0 {
+					return
+				}
+				for _, a := range []int{as[ti%len(as)], as[(len(as)/2+ti)%len(as)]} {
+					addr := uint16(a)
+					us, _ := staleUnits(addr, rng)
+					u := us[[]int{1, 10, 26}[ti]] // a refusal for a neighbour register, another one, the frame-error response
+					d.Seq[addr] = [][]byte{append(append([]byte(nil), u...), simGet(addr, 0, d.Regs[addr].Payload)...)}
+				}
+			}
+			runStream(s, pl.spec, pl.rl, regs, "1111", -1, "", -1, "", 0, false, false)
+			streamDevHook = nil
 		}
 	}
 }
@@ -669,6 +763,10 @@ func (c *manualCtx) expire() {
 	}
 }
 
+// streamDevHook: if set, applied to the simulated device of the next runStream calls (line trouble in front of some answers)
+var streamDevHook func(d *DevPort)
+var streamHookName string
+
 func runStream(s *Sink, spec string, rl veregister.RegisterList, regs map[uint16]DevAnswer, hs string, cancel int, how string, fail int, failTok string, flag byte, warm bool, expire bool) {
 	pAddrs, pNames := plannedOf(rl, hs)
 	dev := NewDevPort(0xA231)
@@ -704,6 +802,10 @@ func runStream(s *Sink, spec string, rl veregister.RegisterList, regs map[uint16
 		}
 		dev.Regs[uint16(a)] = ans
 		mp = append(mp, fmt.Sprintf("%d=ok:%s", a, HEX(ans.Payload)))
+	}
+	if streamDevHook != nil {
+		dev.RawRegs = map[uint16][]byte{}
+		streamDevHook(dev)
 	}
 	api, err := connectApi(dev)
 	if err != nil {
@@ -831,6 +933,9 @@ func runStream(s *Sink, spec string, rl veregister.RegisterList, regs map[uint16
 	}
 	if expire {
 		op += " mut:context-ends-by-deadline"
+	}
+	if streamDevHook != nil {
+		op += " mut:" + streamHookName
 	}
 	out := strings.Join(events, ";") + " -> " + res + " M=" + strings.Join(ms, ";")
 	tag := "stream"
@@ -1048,6 +1153,65 @@ func suiteC11(rng *Rng, thorough bool, s *Sink) {
 			}
 		}
 	}
+	// a chatty device: a burst of asynchronous frames (an MPPT in HEX mode sends them every second) sits in front of the pong
+	// and in front of the answer to the id query - it still "answers both"
+	for _, id := range []uint16{0xA056, 0x203, 0xA231, 0xA340, 0x1234} {
+		for _, n := range []int{1, 2, 7, 8, 9, 12, 40, 200} {
+			for where := 0; where < 3; where++ {
+				var burst []byte
+				for i := 0; i < n; i++ {
+					burst = append(burst, simFrame(0xA, []byte{0xBC, 0xED, 0x00, byte(i), byte(n)})...)
+				}
+				dev := NewDevPort(id)
+				if where != 1 {
+					dev.PingPrefix = burst
+				}
+				if where != 0 {
+					dev.IdPrefix = burst
+				}
+				out, api, err := conn(dev)
+				op := fmt.Sprintf("CN ok ok:%d mut:burst-of-%d-async-frames-in-front-of-answer-%d", id, n, where)
+				s.Line("async-burst", op, out)
+				supported := productClass(veproduct.Product(id)) != ""
+				if supported != (err == nil && api != nil) || (api != nil && uint16(api.Product) != id) {
+					s.Violate(op, out, fmt.Sprintf("device id 0x%04X answers ping and id query behind %d asynchronous frames: connect gave %s", id, n, out))
+				}
+			}
+		}
+	}
+	// the caller keeps the port and tries again (a device that was still booting, a garbled first answer): every connect is
+	// decided by what the device does during *that* connect
+	for _, id := range []uint16{0xA056, 0x203, 0xA231, 0xA340, 0x1234} {
+		for fi, first := range []func(d *DevPort){
+			func(d *DevPort) { d.NoPing = true }, func(d *DevPort) { d.NoId = true }, func(d *DevPort) { d.BadId = []byte(":153A062\n") },
+			func(d *DevPort) { d.Id = 0x1234 }, func(d *DevPort) { d.Id = 0xA340 }, func(d *DevPort) { d.BadPing = []byte(":5164") },
+		} {
+			dev := NewDevPort(id)
+			first(dev)
+			out1, api1, err1 := conn(dev)
+			if api1 != nil || err1 == nil {
+				continue // (decided above)
+			}
+			for k := 2; k <= 4; k++ {
+				// the device is healthy now
+				dev.NoPing, dev.NoId, dev.BadId, dev.BadPing, dev.Id = false, false, nil, nil, id
+				dev.Frames = nil
+				out, api, err := conn(dev)
+				op := fmt.Sprintf("CN ok ok:%d mut:connect-%d-on-this-port-after-failure-%d", id, k, fi)
+				s.Line("reconnect-after-failure", op, out)
+				supported := productClass(veproduct.Product(id)) != ""
+				if supported != (err == nil && api != nil) || (api != nil && uint16(api.Product) != id) {
+					s.Violate(op, out, fmt.Sprintf("device id 0x%04X answers ping and id query at connect no. %d on a port whose first connect had failed (%s): connect gave %s", id, k, out1, out))
+				}
+				if len(dev.Frames) < 2 || string(dev.Frames[0]) != ":154\n" || string(dev.Frames[1]) != ":451\n" {
+					s.Violate(op, out, fmt.Sprintf("connect no. %d did not ping and then ask the device id: frames %q", k, dev.Frames))
+				}
+				if k == 3 && api != nil {
+					api.Close() // and once more after a Close of the previous object
+				}
+			}
+		}
+	}
 	for _, sh := range shapes {
 		for _, id := range []uint16{0xA053, 0x203, 0xA231, 0xA340, 0x1234} {
 			dev := NewDevPort(id)
@@ -1062,6 +1226,56 @@ func suiteC11(rng *Rng, thorough bool, s *Sink) {
 				s.Violate(op, out, "the device id was queried although the ping was not answered")
 			}
 		}
+	}
+}
+
+// errSurvey: refusals collected over several calls on one driver / one RegisterApi and looked at afterwards (a survey of
+// the registers a device supports, errors sent to a logger goroutine, errors.Join of a batch): each error still matches the
+// sentinel of *its* flag - and only that one - after the later calls
+func errSurvey(s *Sink, rng *Rng) {
+	kindOf := map[byte]string{1: "unknown-id", 2: "not-supported", 4: "parameter-error"}
+	for round := 0; round < 6; round++ {
+		dev := NewDevPort(0xA231)
+		var addrs []uint16
+		var flags []byte
+		for i := 0; i < 9; i++ {
+			a := uint16(0xED00 + 2*i + 16*round)
+			f := []byte{1, 2, 4}[(i+round)%3]
+			dev.Regs[a] = DevAnswer{f, nil}
+			addrs, flags = append(addrs, a), append(flags, f)
+		}
+		api, err := connectApi(dev)
+		if err != nil {
+			return
+		}
+		var errs []error
+		for i, a := range addrs {
+			var e error
+			switch (i + round) % 5 {
+			case 0:
+				_, e = api.Vd.VeCommandGet(a)
+			case 1:
+				_, e = api.Vd.GetUint(a)
+			case 2:
+				_, e = api.Vd.GetInt(a)
+			case 3:
+				_, e = api.Vd.GetString(a)
+			default:
+				_, e = api.ReadNumberRegister(veregister.VerifNumber(fmt.Sprintf("Survey%d", i), 0, a))
+			}
+			errs = append(errs, e)
+		}
+		for i, e := range errs {
+			op := fmt.Sprintf("error survey round %d: call %d (register 0x%04X refused with flag %d), looked at after %d later calls", round, i, addrs[i], flags[i], len(errs)-1-i)
+			if e == nil {
+				s.Violate(op, "nil", "a refused read returned no error")
+				continue
+			}
+			if k := errKind(e); k != kindOf[flags[i]] {
+				s.Violate(op, "err:"+k, fmt.Sprintf("the error returned for flag %d must (still) match %s; after the later calls it classifies as %s: %v", flags[i], kindOf[flags[i]], k, e))
+			}
+		}
+		s.Extra["errors_reexamined_after_later_calls"] += len(errs)
 	}
 }
 
@@ -1082,6 +1296,31 @@ func suiteC05api(rng *Rng, thorough bool, s *Sink) {
 			if v := oracleC09(it, reg, o, out); v != "" {
 				s.Violate(op, out, v)
 			}
+		}
+		lineTrouble(s, rng, it, idx, []outcome{{"err:unknown-id", &DevAnswer{1, nil}}, {"err:not-supported", &DevAnswer{2, rng.Bytes(2)}}, {"err:parameter-error", &DevAnswer{4, nil}}})
+	}
+	errSurvey(s, rng)
+	// the list readers: a refusal at every position of a product's list, the context ending (cancel / deadline) while the
+	// refused register is being read - the run ends with the device's error, named and matchable
+	for _, id := range []uint16{0xA053, 0x203, 0xA231} {
+		rl, _ := veregister.GetRegisterListByProduct(veproduct.Product(id))
+		regs := map[uint16]DevAnswer{}
+		for i := range rl.NumberRegisters {
+			regs[rl.NumberRegisters[i].Address()] = DevAnswer{0, answerFor(1, rl.NumberRegisters[i], nil, rng)}
+		}
+		for i := range rl.TextRegisters {
+			regs[rl.TextRegisters[i].Address()] = DevAnswer{0, answerFor(2, rl.TextRegisters[i], nil, rng)}
+		}
+		for i := range rl.EnumRegisters {
+			regs[rl.EnumRegisters[i].Address()] = DevAnswer{0, answerFor(3, rl.EnumRegisters[i], &rl.EnumRegisters[i], rng)}
+		}
+		for i := range rl.FieldListRegisters {
+			regs[rl.FieldListRegisters[i].Address()] = DevAnswer{0, answerFor(4, rl.FieldListRegisters[i], nil, rng)}
+		}
+		for k := 0; k < rl.Len(); k++ {
+			tok := []string{"err:unknown-id", "err:not-supported", "err:parameter-error"}[k%3]
+			runStream(s, fmt.Sprintf("P%d", id), rl, regs, "1111", -1, "", k, tok, 0, k%4 == 3, false)
+			runStream(s, fmt.Sprintf("P%d", id), rl, regs, "1111", k+1, "write", k, tok, 0, false, k%2 == 1)
 		}
 	}
 }
